@@ -476,7 +476,7 @@ func runCheck(args []string) int {
 		}
 	}
 	start := time.Now()
-	fmt.Printf("vsim: property=%s tier=%s VERIF_SEED=%d runs=%d workers=%d budget/worker=%s\n", *prop, *tier, seed, N, W, budget)
+	fmt.Printf("vsim: property=%s tier=%s VERIF_SEED=%d runs=%d workers=%d budget/worker=%s extra-corpus=%d\n", *prop, *tier, seed, N, W, budget, props.ExtraCorpusSize())
 	tmp, err := os.MkdirTemp("", "vsim-"+*prop+"-")
 	if err != nil {
 		fmt.Fprintln(os.Stderr, err)
@@ -1098,6 +1098,18 @@ func main() {
 		os.Exit(runExecTape())
 	case "exec-seq":
 		os.Exit(runExecSeq())
+	case "corpus":
+		fs := flag.NewFlagSet("corpus", flag.ExitOnError)
+		repo := fs.String("repo", "/repo", "")
+		out := fs.String("out", "", "")
+		fs.Parse(os.Args[2:])
+		n, err := props.ExtractCorpus(*repo, *out)
+		if err != nil {
+			fmt.Fprintln(os.Stderr, "vsim corpus:", err)
+			os.Exit(2)
+		}
+		fmt.Printf("vsim: extracted %d string literals from the test files under %s\n", n, *repo)
+		os.Exit(0)
 	case "triage":
 		os.Exit(runTriage(os.Args[2:]))
 	}
